@@ -623,6 +623,8 @@ sequences) + call-sequence runs of the built extension (see extra.python).".into
                 b
             } else if rng.chance(1, 4) { String::new() } else { gen_text(&mut rng, w, 10).chars().filter(|c| *c != '\n' && *c != '\r').collect() };
             file.push_str(&body);
+            // a line whose own content ends with (or is) a carriage return: only ONE optional CR before the LF is terminator
+            if overlong_at != Some(li) && rng.chance(1, 8) { file.push('\r'); if rng.chance(1, 3) { file.push('\r'); } }
             let last = li + 1 == nlines;
             let term = if last && rng.chance(1, 3) { "" } else if rng.chance(1, 4) { "\r\n" } else { "\n" };
             if body.is_empty() && !term.is_empty() { blank = true; }
